@@ -57,6 +57,7 @@ type blkSched struct {
 	SCap      int       `json:"scap"`
 	CWT       int       `json:"cwt"`
 	PeerDied  bool      `json:"peer_died"` // session close = the peer disappeared (onRemoteClose) instead of Close()
+	Eager     bool      `json:"eager"`     // a reader woken by an event runs on at once (until it blocks or returns)
 }
 
 type blkJob struct {
@@ -65,7 +66,6 @@ type blkJob struct {
 	BoundMs   int        `json:"bound_ms"`  // O3 bound
 	TickMs    int        `json:"tick_ms"`   // initial distance of a deadline that the schedule lets pass
 	WakeTries int        `json:"wake_tries"`
-	KnownWake bool       `json:"known_wake"` // finding wakeup-bare-send is listed: record it, do not report it
 }
 
 type blkObs map[string]interface{}
@@ -192,6 +192,7 @@ const (
 	blkLblState = "Stream.getStreamState:"
 	blkLblClear = "pendingData.clear:lock"
 	blkLblPut   = "queue.put:lock"
+	blkLblAdd   = "pendingData.add:lock"
 )
 
 // blkSpawn creates the goroutine; it runs fn only after th.start() (called by advance once the gates are armed).
@@ -735,7 +736,7 @@ func (w *blkReadWorld) step(i int, s blkStep) (skipped bool, timing string) {
 			return true, "" // returned already, or blocked in the select: it moves when an event releases it
 		}
 		w.advance(w.R, rLabels)
-	case s.A == "ArrAdd":
+	case s.A == "ArrBegin":
 		if w.dpc != "idle" || w.peerCl {
 			return true, ""
 		}
@@ -744,9 +745,19 @@ func (w *blkReadWorld) step(i int, s blkStep) (skipped bool, timing string) {
 			return true, ""
 		}
 		var r string
-		w.D, r = w.env("deliver", []string{blkLblState}, func() { w.pair.deliver(w.pair.B) })
+		w.D, r = w.env("deliver", []string{blkLblAdd}, func() { w.pair.deliver(w.pair.B) })
+		if strings.HasPrefix(r, "gate:") {
+			w.dpc = "pre"
+		}
+	case s.A == "ArrAdd":
+		if w.dpc != "pre" {
+			return true, ""
+		}
+		r := w.advance(w.D, []string{blkLblState}, w.R)
 		if strings.HasPrefix(r, "gate:") {
 			w.dpc = "mid"
+		} else {
+			w.dpc = "idle"
 		}
 	case s.A == "ArrNotify":
 		if w.dpc != "mid" {
@@ -856,6 +867,10 @@ func blkRunRead(job *blkJob, sc *blkSched, res *blkResult) blkRun {
 		run.Events = append(run.Events, blkEvent{A: "Init", Obs: w.obs()})
 		for i, s := range sc.Steps {
 			w.at = i
+			wasBlocked := false
+			if sc.Eager && w.R != nil && !w.R.finished() && w.R.gate == nil {
+				wasBlocked, _ = w.R.blocked()
+			}
 			skipped, timing := w.step(i, s)
 			if timing != "" {
 				run.Timing = timing
@@ -867,6 +882,13 @@ func blkRunRead(job *blkJob, sc *blkSched, res *blkResult) blkRun {
 			}
 			res.Steps++
 			w.syncR()
+			if wasBlocked && !strings.HasPrefix(s.A, "R") {
+				// eager reader: woken by this event, it runs on until it blocks again or returns
+				for k := 0; k < 8 && w.R.gate != nil && w.viol == nil; k++ {
+					w.advance(w.R, []string{blkLblMove, blkLblState})
+					w.syncR()
+				}
+			}
 			w.checkBlocked()
 			w.syncR()
 			if w.timingBad != "" {
@@ -916,6 +938,7 @@ func TestVS_Blocking(t *testing.T) {
 	if err := json.Unmarshal(raw, &job); err != nil {
 		t.Fatal(err)
 	}
+	level = levelNoPrint
 	if job.BoundMs == 0 {
 		job.BoundMs = 10000
 	}
@@ -939,7 +962,9 @@ func TestVS_Blocking(t *testing.T) {
 		case "accept":
 			res.Runs = append(res.Runs, blkRunAccept(&job, sc, res))
 		case "send":
-			res.Runs = append(res.Runs, blkRunSend(&job, sc, res, job.KnownWake))
+			res.Runs = append(res.Runs, blkRunSend(&job, sc, res))
+		case "init":
+			res.Runs = append(res.Runs, blkRunInit(&job, sc, res))
 		}
 		if len(res.Violations) >= 5 {
 			break
@@ -1432,7 +1457,6 @@ type blkSendWorld struct {
 	cwt     time.Duration
 	near    bool
 	timingB string
-	knownWk bool
 	kStuck  bool
 }
 
@@ -1484,7 +1508,11 @@ func (w *blkSendWorld) obs() blkObs {
 	if wp == "done" {
 		wp = "idle"
 	}
-	return blkObs{"wpos": wp, "res": w.wRes, "kpos": w.tpos(w.K), "full": len(s.sendCh) == cap(s.sendCh), "sess": w.sess,
+	kp := w.tpos(w.K)
+	if kp == "done" && w.kErr != nil {
+		kp = "shut"
+	}
+	return blkObs{"wpos": wp, "res": w.wRes, "kpos": kp, "full": len(s.sendCh) == cap(s.sendCh), "sess": w.sess,
 		"wblk": w.wblk, "now": w.now}
 }
 
@@ -1521,6 +1549,9 @@ func (w *blkSendWorld) sync() {
 	if w.K != nil && w.K.finished() && !w.kDone {
 		w.kDone = true
 		w.res.Returns["wakeup:"+blkErrName(w.kErr)]++
+		if w.kErr != nil && !w.pair.A.IsClosed() {
+			w.fail("error-without-cause", "Flush (slow path of wakeUpPeer) returned "+w.kErr.Error()+" on a live session")
+		}
 	}
 }
 
@@ -1642,7 +1673,7 @@ func (w *blkSendWorld) step(i int, s blkStep) (bool, string) {
 	return false, ""
 }
 
-func blkRunSend(job *blkJob, sc *blkSched, res *blkResult, known bool) blkRun {
+func blkRunSend(job *blkJob, sc *blkSched, res *blkResult) blkRun {
 	run := blkRun{Name: sc.Name, Events: []blkEvent{}}
 	for attempt := 0; attempt < 3; attempt++ {
 		run.Attempts = attempt + 1
@@ -1718,9 +1749,7 @@ func blkRunSend(job *blkJob, sc *blkSched, res *blkResult, known bool) blkRun {
 						js, _ := json.Marshal(sc.Steps)
 						res.WakeWitness = sc.Name + ": " + detail + "; steps " + string(js)
 					}
-					if !known {
-						w.fail("blocked-forever", detail)
-					}
+					w.fail("blocked-forever", detail)
 					// free the goroutine
 					for len(w.pair.A.sendCh) > 0 {
 						<-w.pair.A.sendCh
@@ -1738,6 +1767,325 @@ func blkRunSend(job *blkJob, sc *blkSched, res *blkResult, known bool) blkRun {
 			}
 		}
 		w.pair.destroy()
+		if w.viol != nil {
+			res.Violations = append(res.Violations, *w.viol)
+		}
+		if w.inc != "" {
+			res.Inconclusive = append(res.Inconclusive, w.inc)
+		}
+		if run.Timing == "" {
+			break
+		}
+		res.TimingRetry++
+	}
+	return run
+}
+
+// ================================================================= mode "init" (handshake)
+
+var blkInitCounter uint64
+
+type blkInitWorld struct {
+	*blkWorld
+	peer     *net.UnixConn // the scripted peer's end of a real unix socketpair
+	under    net.Conn      // handed to newSession
+	T        *blkThr
+	sess     *Session
+	err      error
+	k        int
+	peerSt   string
+	res      string
+	now      int
+	it       time.Duration
+	startAt  time.Time
+	retAt    time.Time
+	near     bool
+	done     bool
+	timingB  string
+	isClient bool
+}
+
+func blkSocketpair() (*net.UnixConn, *net.UnixConn, error) {
+	fds, err := syscall.Socketpair(syscall.AF_UNIX, syscall.SOCK_STREAM, 0)
+	if err != nil {
+		return nil, nil, err
+	}
+	mk := func(fd int) (*net.UnixConn, error) {
+		f := os.NewFile(uintptr(fd), "blk-sp")
+		defer f.Close()
+		c, err := net.FileConn(f)
+		if err != nil {
+			return nil, err
+		}
+		return c.(*net.UnixConn), nil
+	}
+	a, err := mk(fds[0])
+	if err != nil {
+		return nil, nil, err
+	}
+	b, err := mk(fds[1])
+	if err != nil {
+		return nil, nil, err
+	}
+	return a, b, nil
+}
+
+// reply k of the scripted SERVER peer (the client under test uses memfd): 0 answer the version exchange, 1 read the
+// metadata event and say "ready for the descriptors", 2 receive the descriptors and acknowledge the share memory.
+func (w *blkInitWorld) peerReply() error {
+	p := w.peer
+	p.SetDeadline(time.Now().Add(5 * time.Second))
+	hdr := make([]byte, headerSize)
+	out := header(make([]byte, headerSize))
+	switch w.k {
+	case 0:
+		if _, err := readFull(p, hdr); err != nil {
+			return err
+		}
+		out.encode(headerSize, maxSupportProtoVersion, typeExchangeProtoVersion)
+	case 1:
+		if _, err := readFull(p, hdr); err != nil {
+			return err
+		}
+		body := make([]byte, header(hdr).Length()-headerSize)
+		if _, err := readFull(p, body); err != nil {
+			return err
+		}
+		out.encode(headerSize, maxSupportProtoVersion, typeAckReadyRecvFD)
+	case 2:
+		oob := make([]byte, syscall.CmsgSpace(memfdCount*memfdDataLen))
+		_, oobn, _, _, err := p.ReadMsgUnix(nil, oob)
+		if err != nil {
+			return err
+		}
+		if msgs, err := syscall.ParseSocketControlMessage(oob[:oobn]); err == nil && len(msgs) > 0 {
+			if fds, err := syscall.ParseUnixRights(&msgs[0]); err == nil {
+				for _, fd := range fds {
+					syscall.Close(fd)
+				}
+			}
+		}
+		out.encode(headerSize, maxSupportProtoVersion, typeAckShareMemory)
+	}
+	_, err := p.Write(out)
+	return err
+}
+
+func readFull(c net.Conn, b []byte) (int, error) {
+	n := 0
+	for n < len(b) {
+		m, err := c.Read(b[n:])
+		n += m
+		if err != nil {
+			return n, err
+		}
+	}
+	return n, nil
+}
+
+func (w *blkInitWorld) obs() blkObs {
+	pos := "idle"
+	if w.T != nil {
+		pos = "run"
+		if w.T.finished() {
+			pos = "done"
+		} else if b, _ := w.T.blocked(); b {
+			pos = "blocked"
+		}
+	}
+	return blkObs{"pos": pos, "res": w.res, "k": w.k, "peer": w.peerSt, "now": w.now}
+}
+
+func (w *blkInitWorld) sync() {
+	if w.T == nil || !w.T.finished() || w.done {
+		return
+	}
+	w.done = true
+	el := w.retAt.Sub(w.startAt)
+	switch {
+	case w.err == nil:
+		w.res = "ok"
+		if w.k < 3 {
+			w.fail("nil-without-data", fmt.Sprintf("newSession succeeded although the peer had sent only %d of its 3 handshake messages", w.k))
+		}
+	case strings.Contains(w.err.Error(), "init timeout"):
+		w.res = "timeout"
+		if el < w.it {
+			w.fail("timeout-early", fmt.Sprintf("newSession reported the initialization timeout after %v, InitializeTimeout is %v", el, w.it))
+		} else if w.near && w.now < 1 {
+			w.timingB = "real InitializeTimeout passed while the schedule's clock was still before it"
+		}
+	default:
+		w.res = "err"
+		if w.peerSt == "up" {
+			w.fail("error-without-cause", "newSession failed with "+w.err.Error()+" although the peer neither stalled past the timeout nor closed")
+		}
+	}
+	w.res2count()
+	if w.T.panicV != nil {
+		w.fail("panic", fmt.Sprintf("newSession panicked: %v", w.T.panicV))
+	}
+}
+
+func (w *blkInitWorld) res2count() { w.blkWorld.res.Returns["init:"+w.res]++ }
+
+func (w *blkInitWorld) waitT() {
+	if w.T != nil && !w.T.finished() {
+		w.waitThr(w.T, nil, nil)
+	}
+}
+
+func (w *blkInitWorld) ticksAhead(from int) bool {
+	for i := from; i < len(w.sc.Steps); i++ {
+		if w.sc.Steps[i].A == "ITick" {
+			return true
+		}
+	}
+	return false
+}
+
+func blkRunInit(job *blkJob, sc *blkSched, res *blkResult) blkRun {
+	run := blkRun{Name: sc.Name, Events: []blkEvent{}}
+	for attempt := 0; attempt < 3; attempt++ {
+		run.Attempts = attempt + 1
+		run.Events = run.Events[:0]
+		run.Skipped = 0
+		run.Timing = ""
+		w := &blkInitWorld{blkWorld: &blkWorld{res: res, job: job, sc: sc, bound: time.Duration(job.BoundMs) * time.Millisecond},
+			it: time.Duration(job.TickMs<<(2*uint(attempt))) * 2 * time.Millisecond, peerSt: "up", res: "none", isClient: true}
+		vsReset(vsOff)
+		a, b, err := blkSocketpair()
+		if err != nil {
+			res.Inconclusive = append(res.Inconclusive, sc.Name+": socketpair: "+err.Error())
+			return run
+		}
+		w.under, w.peer = a, b
+		run.Events = append(run.Events, blkEvent{A: "Init", Obs: w.obs()})
+		for i, s := range sc.Steps {
+			w.at = i
+			if w.near && w.now < 1 && w.T != nil && !w.T.finished() && time.Until(w.startAt.Add(w.it)) < 3*time.Millisecond {
+				run.Timing = fmt.Sprintf("real InitializeTimeout reached before step %d", i)
+				break
+			}
+			skipped := false
+			switch s.A {
+			case "IStart":
+				n := atomic.AddUint64(&blkInitCounter, 1)
+				conf := DefaultConfig()
+				conf.MemMapType = MemMapTypeMemFd
+				conf.ShareMemoryPathPrefix = fmt.Sprintf("/dev/shm/blk_c11_%d_%d", os.Getpid(), n)
+				conf.QueuePath = fmt.Sprintf("/dev/shm/blk_c11_q_%d_%d", os.Getpid(), n)
+				conf.ShareMemoryBufferCap = 1 << 20
+				conf.LogOutput = nil
+				w.near = w.ticksAhead(i + 1)
+				if w.near {
+					conf.InitializeTimeout = w.it
+				} else {
+					conf.InitializeTimeout = time.Hour
+					w.it = time.Hour
+				}
+				w.T = blkSpawn("newSession", "initProtocol", func() {
+					w.startAt = time.Now()
+					w.sess, w.err = newSession(conf, w.under, true)
+					w.retAt = time.Now()
+				})
+				w.startAt = time.Now()
+				w.T.start()
+				w.waitT()
+			case "PeerReply":
+				if w.T == nil || w.peerSt != "up" || w.k >= 3 {
+					skipped = true
+					break
+				}
+				if w.T.finished() {
+					skipped = true // the call is over (timeout): nobody reads the peer's message any more
+					break
+				}
+				if err := w.peerReply(); err != nil {
+					w.inc = fmt.Sprintf("%s: scripted peer step %d: %v", sc.Name, w.k, err)
+					break
+				}
+				w.k++
+				// the client consumes the message and blocks on its next read (or finishes)
+				time.Sleep(2 * time.Millisecond)
+				w.waitT()
+				if w.k < 3 {
+					// let the handshake goroutine send its next message before the next step
+					time.Sleep(3 * time.Millisecond)
+				}
+			case "PeerClose":
+				if w.peerSt != "up" {
+					skipped = true
+					break
+				}
+				w.peer.Close()
+				w.peerSt = "closed"
+				if w.T != nil && !w.T.finished() {
+					// O1: the peer is gone - newSession must come back (error or, if everything was already read, success)
+					select {
+					case <-w.T.done:
+					case <-time.After(w.bound):
+						st, _ := blkStatus(atomic.LoadInt64(&w.T.gid))
+						w.fail("blocked-forever", fmt.Sprintf("newSession (goroutine state %q) still blocked %v after the peer closed the connection", st, w.bound))
+					}
+				}
+			case "ITick":
+				w.now++
+				if w.near && w.T != nil && !w.T.finished() {
+					dl := w.startAt.Add(w.it)
+					if time.Until(dl) < time.Millisecond {
+						run.Timing = "real InitializeTimeout passed before the tick that lets it pass"
+						break
+					}
+					w.near = false
+					time.Sleep(time.Until(dl) + 3*time.Millisecond)
+					select {
+					case <-w.T.done:
+					case <-time.After(w.bound):
+						st, _ := blkStatus(atomic.LoadInt64(&w.T.gid))
+						w.fail("blocked-forever", fmt.Sprintf("newSession (goroutine state %q) still blocked %v after InitializeTimeout", st, w.bound))
+					}
+				}
+			default:
+				skipped = true
+			}
+			if run.Timing != "" {
+				break
+			}
+			if skipped {
+				run.Skipped++
+				continue
+			}
+			res.Steps++
+			w.sync()
+			if w.timingB != "" {
+				run.Timing = w.timingB
+				break
+			}
+			run.Events = append(run.Events, blkEvent{A: s.A, K: s.K, Obs: w.obs()})
+			if w.viol != nil || w.inc != "" {
+				break
+			}
+		}
+		// end: the peer goes away; newSession must be back
+		if w.peerSt == "up" {
+			w.peer.Close()
+			w.peerSt = "closed"
+		}
+		if w.T != nil {
+			select {
+			case <-w.T.done:
+				w.sync()
+			case <-time.After(w.bound):
+				st, _ := blkStatus(atomic.LoadInt64(&w.T.gid))
+				w.fail("blocked-forever", fmt.Sprintf("newSession (goroutine state %q) still blocked %v after the peer closed the connection", st, w.bound))
+			}
+			if w.sess != nil {
+				w.sess.Close()
+			}
+		} else {
+			w.under.Close()
+		}
 		if w.viol != nil {
 			res.Violations = append(res.Violations, *w.viol)
 		}
